@@ -4,7 +4,7 @@
 
 use crate::assets::*;
 use crate::model::Key;
-use crate::reload::{Judge, Step, World, WorldCfg};
+use crate::reload::{CacheKind, Judge, Step, World, WorldCfg};
 use crate::rng::{fnv_str, mix, Rng};
 use crate::{Args, Report};
 use serde_json::json;
@@ -103,7 +103,7 @@ pub struct HistCfg {
 pub fn history(rep: &mut Report, r: &mut Rng, j: &Judge, cfg: &HistCfg, tag: serde_json::Value) -> (u64, u64) {
     let mut g = Gen::new(cfg.n_nodes, cfg.n_leaves);
     let mut w = World::new(&WorldCfg {
-        caches: vec![true],
+        caches: vec![CacheKind::Hot],
         static_mode: cfg.static_mode,
         content_mode: cfg.content_mode,
     });
@@ -310,7 +310,7 @@ pub fn history(rep: &mut Report, r: &mut Rng, j: &Judge, cfg: &HistCfg, tag: ser
 /// Hand-written shapes that every run must contain (floors).
 fn fixed_shapes(rep: &mut Report, j: &Judge, static_mode: bool) {
     // diamond: top -> {left, right} -> leaf ; chain of 4
-    let mut w = World::new(&WorldCfg { caches: vec![true], static_mode, content_mode: 3 });
+    let mut w = World::new(&WorldCfg { caches: vec![CacheKind::Hot], static_mode, content_mode: 3 });
     w.seed_file(0, "l.y0", "a", "base-0");
     w.seed_file(0, "d.left", "n0", "load L10t l.y0");
     w.seed_file(0, "d.right", "n0", "load L10t l.y0 file l.y0 a");
